@@ -422,10 +422,10 @@ func hasKind(ms []mismatch, nk string) *mismatch {
 // ------------------------------------------------------------------------------------------
 
 type matchWitness struct {
-	Part   string `json:"part"` // "match"
-	Shape  string `json:"shape"`
-	Index  string `json:"index"`
-	Route  string `json:"route"`
+	Part  string `json:"part"` // "match"
+	Shape string `json:"shape"`
+	Index string `json:"index"`
+	Route string `json:"route"`
 	// RouteClass: "any" when the symptom shows through WHERE MATCH as well as the original route
 	RouteClass string `json:"route_class"`
 	Search     string `json:"search"`
